@@ -234,15 +234,16 @@ PROPS["C08"] = dict(
 
 PROPS["C10"] = dict(
     title="Directives change exactly what they select",
-    modules=["Kust.Props.C10", "Kust.Props.C10b", "Kust.Props.C10c"],
-    theorems=["Kust.C10.image_match_exact", "Kust.C10.rest_starts_tag_or_digest", "Kust.C10.match_has_prefix", "Kust.C10.unmatched_untouched",
+    modules=["Kust.Props.C10", "Kust.Props.C10b", "Kust.Props.C10c", "Kust.Props.C10d"],
+    theorems=["Kust.C10.select_designates", "Kust.C10.select_mem", "Kust.C10.select_sublist", "Kust.C10.mixed_original_and_current", "Kust.C10.name_mismatch_excluded", "Kust.C10.kind_mismatch_excluded", "Kust.C10.empty_selector_selects_all", "Kust.C10.bad_pattern_is_error", "Kust.C10.unparsable_selector_error_iff_reached",
+              "Kust.C10.image_match_exact", "Kust.C10.rest_starts_tag_or_digest", "Kust.C10.match_has_prefix", "Kust.C10.unmatched_untouched",
               "Kust.C10.stripPrefix_iff", "Kust.C10.Witness.old_regex_name_matched_other_image",
               "Kust.C10.unselected_untouched", "Kust.C10.unnamed_field_untouched", "Kust.C10.target_frame", "Kust.C10.target_writes",
               "Kust.C10.literal_copied_verbatim", "Kust.C10.source_unique_and_current", "Kust.C10.last_sees_predecessors",
               "Kust.C10.target_pieces_exact", "Kust.C10.source_piece", "Kust.C10.setPieces_replace",
               "Kust.C10.modifyAt_same", "Kust.C10.modifyAt_frame", "Kust.C10.writeAll_frame", "Kust.C10.copyOne_frame",
               "Kust.C10.copyOne_single_scalar", "Kust.C10.copyOne_every_scalar", "Kust.C10.denote_pairwise", "Kust.C10.writeAll_each", "Kust.C10.setFieldValue_scalar", "Kust.C10.setFieldValue_nonscalar"],
-    components=["image.update", "image.split", "repl.apply", "repl.tree", "match.path"],
+    components=["image.update", "image.split", "repl.apply", "repl.tree", "match.path", "resmap.select"],
     oracle=True,
     n_corr={"quick": 4000, "thorough": 40000}, n_oracle={"quick": 1200, "thorough": 15000},
     technique="Lean 4 proof (image reference matching is literal-prefix + tag/digest grammar: exact characterisation, never a longer or shorter name; replacement filter on scalar fields: frame, verbatim copy, unique current source, strict sequencing, delimiter/index piece laws) + Go/Lean correspondence of the imagetag filter, Split and the replacement filter (lists of chained replacements) + near-miss selection oracle for patch targets, images, replicas and replacements on whole builds",
